@@ -288,7 +288,7 @@ fn deser_decode_chunked(schema: &apache_avro::Schema, bytes: &[u8], chunk: usize
 /// a truncated datum is an error for both; a datum the strict reference decoder and the generic decoder
 /// accept is accepted by the deserializer with the same length; two Ok verdicts consume the same bytes.
 /// Inputs only one of them rejects for its *content* (UUID text, big-decimal payload) give no verdict.
-fn judge_deser(sc: &Sc, schema: &apache_avro::Schema, bytes: &[u8], origin: &str, vi: usize, generic: &Result<(apache_avro::types::Value, usize), String>, de: &Result<usize, String>, strict: &Result<V, DecErr>, strict_len: usize, st: &mut Stats) {
+fn judge_deser(sc: &Sc, schema: &apache_avro::Schema, bytes: &[u8], origin: &str, vi: usize, generic: &Result<(apache_avro::types::Value, usize), String>, de: &Result<usize, String>, ignored_ok: bool, strict: &Result<V, DecErr>, strict_len: usize, st: &mut Stats) {
     st.transitions += 1;
     let order = 1u64 << 60 | (sc.idx as u64) << 32 | vi as u64;
     let failed: Option<&str> = match (de, generic, strict) {
@@ -297,6 +297,11 @@ fn judge_deser(sc: &Sc, schema: &apache_avro::Schema, bytes: &[u8], origin: &str
         (Ok(dn), Ok((_, gn)), _) if dn != gn => Some("generic decoder and schema-aware deserializer consume different lengths for the same input"),
         (Err(_), Ok((_, gn)), Ok(_)) if *gn == strict_len => Some("a complete datum (reference decoder and generic decoder agree) is rejected by the schema-aware deserializer"),
         _ => None,
+    };
+    // a truncated datum is an error for a target that ignores the data as well
+    let failed = match (failed, strict) {
+        (None, Err(DecErr::Eof)) if ignored_ok => Some("input is a truncated datum but the schema-aware deserializer returned Ok for a target that ignores the data (IgnoredAny)"),
+        (f, _) => f,
     };
     // what the deserializer accepts from a slice it must accept, with the same length, from a source that
     // delivers one byte per read
@@ -334,7 +339,20 @@ fn judge(sc: &Sc, schema: &apache_avro::Schema, bytes: &[u8], origin: &str, vi: 
     // each), so its clause is applied to every truncation/substitution of valid data and to the byte
     // universe up to length 3 (quick) / 4 (thorough)
     let de = if origin != "BU" || bytes.len() <= deser_bu_len() { Some(deser_decode(schema, bytes)) } else { None };
-    if lib.is_err() && !matches!(de, Some(Ok(_))) {
+    // a third target: one that ignores what it is shown (serde's IgnoredAny, as for a struct that omits a
+    // field) goes through deserialize_ignored_any
+    let ignored_ok = de.is_some() && {
+        st.transitions += 1;
+        matches!(
+            guarded(|| {
+                let r = apache_avro::reader::datum::GenericDatumReader::builder(schema).build()?;
+                let mut cur: &[u8] = bytes;
+                r.read_deser::<serde::de::IgnoredAny>(&mut cur).map(|_| ())
+            }),
+            Ok(Ok(()))
+        )
+    };
+    if lib.is_err() && !matches!(de, Some(Ok(_))) && !ignored_ok {
         // both decoders reject: nothing to judge (and the reference decoder is not run on hostile counts)
         if de.is_some() {
             st.transitions += 1;
@@ -347,7 +365,7 @@ fn judge(sc: &Sc, schema: &apache_avro::Schema, bytes: &[u8], origin: &str, vi: 
     let mut c = Cur::new(bytes);
     let strict = refbin::decode(&mut c, &sc.s, &sc.env);
     if let Some(de) = &de {
-        judge_deser(sc, schema, bytes, origin, vi, &lib, de, &strict, c.pos.min(bytes.len()), st);
+        judge_deser(sc, schema, bytes, origin, vi, &lib, de, ignored_ok, &strict, c.pos.min(bytes.len()), st);
     }
     let (lv, ln) = match lib {
         Ok(x) => x,
